@@ -170,6 +170,8 @@ def run(ctx):
             r = unwrap_ok(p.end[1])
             ctx.check(isinstance(r, tuple) and r[0] in ("havoc", "mutated") and names.get(r[1]) == "indexes", "D3-RETURN", FR, "returns-indexes", "Ok(indexes)", "the Ok value is not the vector the records were pushed to", fn_span(body), nontrivial=False)
         ctx.check(saw_final, "D2-SEGMENT", FR, "final-arm", "end-of-input emit exists", "no end-of-input emit: the last record is lost", fn_span(body), nontrivial=False)
+        idxl = {l for l, n_ in names.items() if n_ == "indexes"}
+        only_appended(ctx, "D3-RETURN", FR, "indexes", lambda t: isinstance(t, tuple) and t[0] == "loc" and t[1] in idxl, floor=2)
         errprop(ctx, FR, paths, body, rule="D3-ERRPROP", no_effects_after_error=("Vec::push",), floor=2)
     STI = "scanindex::ScanIndex::str_to_index"
     paths = ctx.paths(STI)
